@@ -118,6 +118,14 @@ class DataModels:
                 return b.get(k)
             raise PyExc('KeyError', ln)
         if isinstance(b, (list, tuple)):
+            if is_sym(k) and I.pure:
+                # specification index into a concrete sequence: total function (guards are the caller's)
+                if not b:
+                    return I.ctx.const('nil', IntS)
+                out = b[-1]
+                for i in range(len(b) - 2, -1, -1):
+                    out = I.ite(to_int(k) == i, b[i], out)
+                return out
             if is_sym(k):
                 n = len(b)
                 kk = self.norm_index(I, k, n, ln, 'IndexError')
@@ -152,6 +160,8 @@ class DataModels:
             except IndexError:
                 raise PyExc('IndexError', ln)
         if is_sym(b) and z3.is_string(b):
+            if I.pure:
+                raise PyExc('TypeError', ln, 'index into a text value in a contract expression')
             raise Unsupported('index into symbolic string')
         if isinstance(b, Opaque):
             return Opaque(b.what + '[]')
@@ -344,6 +354,15 @@ class DataModels:
             return b[lo:hi:st]
         if isinstance(b, bytes):
             b = self.to_sbytes(I, b)
+        if isinstance(b, SBytes) and st == -1 and lo is None and hi is None:
+            # b[::-1]: a fresh array holding the reversed bytes
+            arr = I.ctx.const('rev', ArrS)
+            i = z3.Int('i!rev')
+            n = to_int(b.n)
+            I.ctx.assume(z3.ForAll([i], z3.Implies(z3.And(i >= 0, i < n), z3.Select(arr, i) == b.at(n - 1 - i)),
+                                   patterns=[z3.Select(arr, i)]))
+            I.ctx.byte_arrays.append(arr)
+            return SBytes(arr, 0, b.n)
         if isinstance(b, SBytes):
             if st is not None:
                 raise Unsupported('bytes slice with step')
